@@ -86,6 +86,7 @@ func report(eng *Engine, o runOpts, results []*FuncResult, all []*Obligation, tL
 	bySolver := map[string]int{}
 	var samples []any
 	replayDir := filepath.Join(o.verif, "replays", o.prop)
+	inlinedSet := map[string]bool{}
 	for _, r := range results {
 		functions = append(functions, r.Contract.FullKey())
 		if r.Contract.Trusted {
@@ -96,6 +97,9 @@ func report(eng *Engine, o runOpts, results []*FuncResult, all []*Obligation, tL
 		}
 		for _, n := range r.VC.notes {
 			trusted["imprecision: "+n] = true
+		}
+		for f := range r.VC.inlined {
+			inlinedSet[strings.TrimPrefix(f, modulePath+"/")] = true
 		}
 		if r.Err != "" {
 			outside = append(outside, r.Contract.FullKey()+": "+r.Err)
@@ -180,6 +184,7 @@ func report(eng *Engine, o runOpts, results []*FuncResult, all []*Obligation, tL
 			"checker_cmd":   fmt.Sprintf("./check %s %s", o.prop, o.tier),
 			"trusted_base":  tb,
 			"functions_under_contract": functions,
+			"functions_verified_by_inlining": sortedKeys(inlinedSet),
 			"by_solver":     bySolver,
 			"solver_time_s": solverTime,
 			"load_s":        tLoad.Seconds(), "vcgen_s": tGen.Seconds(), "solve_wall_s": tSolve.Seconds(),
@@ -198,6 +203,27 @@ func report(eng *Engine, o runOpts, results []*FuncResult, all []*Obligation, tL
 		for _, r := range reports {
 			fmt.Printf("  %-70s %-12s %-8s %.2fs %s\n", r.Name, r.Status, r.Solver, r.TimeS, strings.Join(r.Queries, " "))
 		}
+	}
+	if os.Getenv("GOVC_SUMMARY") != "" {
+		// development aid: failures grouped by function and kind
+		agg := map[string]int{}
+		for _, r := range reports {
+			if r.Status != "discharged" {
+				parts := strings.SplitN(r.Name, "#", 2)
+				agg[parts[0]+" ["+r.Status+"]"]++
+			}
+		}
+		for _, k := range sortedKeys(agg) {
+			fmt.Printf("  %4d  %s\n", agg[k], k)
+		}
+		for _, e := range outside {
+			fmt.Println("  outside:", e)
+		}
+		fmt.Printf("property %s: %d obligations, %d discharged, %d violations; load %.1fs gen %.1fs solve %.1fs\n", o.prop, nObl, nDis, violations, tLoad.Seconds(), tGen.Seconds(), tSolve.Seconds())
+		if violations > 0 {
+			return 1
+		}
+		return 0
 	}
 	for _, l := range kfLines {
 		fmt.Println(l)
